@@ -347,6 +347,14 @@ TIES = {
             "error kind) in a state representing the model function's result; every list is representable",
             "_unpack_key, field_name, add_final_newline_if_missing, sorted/key functions as the model's, reversed(), "
             "item observations (source hashes of all of them asserted); set_kvpair_element is not regenerated"),
+    "C11": ("Props/C11Tie.v", 27, "the list-view layer: whitespace_split_tokenizer, comma_split_tokenizer and _value_line_tokenizer of "
+            "tokens.py (equalities, for all value texts, the token constructors' own checks run through C01's mk_token), and "
+            "Deb822ParsedTokenList / ValueReference of parsing.py as REFINEMENTS over C09's regenerated LinkedList: "
+            "iteration, append, append_separator / _newline / _comment, replace, remove, _remove_node (both scans, the "
+            "head/tail bookkeeping), iter_value_references, and ValueReference resolve / value get / value set / remove "
+            "for live and dead references", "the finditer regex leaves, str methods, _render / _value_factory / the "
+            "separator factory as the model's functions, isinstance tests, the weak reference as 'alive while linked' "
+            "(source hashes asserted); _update_field / __exit__ (the write-back) are not regenerated"),
     "C12": ("Props/C12Tie.v", 18, "_multivalued.get_as_string (the writer), PdiffIndex/Release._fixed_field_lengths and "
             "_get_size_field_length, Release.set_size_field_behavior, _multivalued.__init__ (the reader, on every mapping), "
             "validate_input, is_multi_line and the inherited __setitem__ — for every one of the five classes' tables "
@@ -364,6 +372,13 @@ TIES = {
             "dynamic getattr/setattr of the three private slots as keyed stores"),
     "C03": ("Props/C03Tie.v", 3, "NativeVersion._order, _version_cmp_string, _version_cmp_part",
             "the four regex leaves and int()"),
+    "C05": ("Props/C05Tie.v", 4, "PARTIAL: _format_comment (full), Deb822NoDuplicateFieldsParagraphElement.get_kvpair_element "
+            "(full, refinement under C10's representation), and the text-building layer of __setitem__ and "
+            "set_field_to_simple_value (which exact text and comment arguments they hand on, and which values they reject "
+            "unchanged — the model's own expressions; theorems named _partial).  set_field_from_raw_string and "
+            "set_kvpair_element are regenerated and type-checked on every run but their refinement theorems against "
+            "set_raw / nd_set_kvpair are not proved; the duplicates class is not tied", "str methods, the one-field "
+            "parser call as the model's recogniser, comment elements as their text (source hashes asserted)"),
     "C06": ("Props/C06Tie.v", 9, "ArMember.read, readline, readlines, seek, tell (method mode: the private attributes "
             "are threaded as state, returned on exceptions too; guard: __fp and __fname not both None, established by "
             "from_file and proved invariant)", "seek/read/readline/tell/open of the underlying file object"),
